@@ -5,7 +5,7 @@
 EXTENDS MiddlewareAlgebra, FiniteSets
 CONSTANT MaxChain
 
-Names == {"Timeout", "CorrelationID", "Recoverer", "IgnoreErrors", "InstantAck", "Throttle", "CircuitBreaker", "DelayOnError", "Retry", "Duplicator", "RandomFail", "RandomPanic"}
+Names == {"Timeout", "TimeoutZero", "CorrelationID", "Recoverer", "IgnoreErrors", "InstantAck", "Throttle", "CircuitBreaker", "DelayOnError", "Retry", "Duplicator", "RandomFail", "RandomPanic"}
 \* middlewares that do not change the error the caller sees
 ErrorNeutral == {"Timeout", "CorrelationID", "InstantAck", "Throttle", "CircuitBreaker", "DelayOnError"}
 Out(id, corr) == [id |-> id, corr |-> corr]
@@ -33,7 +33,8 @@ EffectEndsWithCall == LET x == Eval(ch) IN x.st.ctx = "live" /\ x.st.dl = FALSE
 \* inside every Timeout the handler sees a deadline; without one it does not
 DeadlineVisibleDuringCall ==
     LET x == Eval(ch) IN \A j \in 1..Len(x.st.obs) :
-        x.st.obs[j].dl = (\E p \in 1..Len(ch) : ch[p] = "Timeout") /\ x.st.obs[j].ctx = "live"
+        /\ x.st.obs[j].dl = (\E p \in 1..Len(ch) : ch[p] \in {"Timeout", "TimeoutZero"})
+        /\ x.st.obs[j].ctx = (IF \E p \in 1..Len(ch) : ch[p] = "TimeoutZero" THEN "cancelled" ELSE "live")   \* Timeout(0): the deadline has passed
 \* composing Retry with error-neutral middlewares (inside or outside it) does not change its attempt count
 RetryAttemptsUnchanged ==
     (\A p \in 1..Len(ch) : ch[p] \in ErrorNeutral) =>
